@@ -41,7 +41,7 @@ func intsShape(r *Rand, vals []int64) TV {
 		l := make([]TV, len(vals))
 		for i, v := range vals {
 			if i%2 == 0 {
-				l[i] = tvInt("int32", v)
+				l[i] = fitInt("int32", v)
 			} else {
 				l[i] = tvStr(fmt.Sprint(v))
 			}
